@@ -202,6 +202,29 @@ static void sweep_dups(long item)
 }
 #define N_DUPS (12 * 3)
 
+/* (e) number of prefix candidates around counter widths: K commands share the typed prefix (K around 2, 16, 64, 128, 256) */
+static const int CAND_K[] = { 2, 3, 4, 15, 16, 17, 31, 32, 33, 63, 64, 65, 127, 128, 129, 254, 255, 256, 257, 258, 300 };
+#define N_CAND (21 * 2)
+static void sweep_candidates(long item)
+{
+        int K = CAND_K[item / 2]; bool last_is_candidate = item & 1;
+        w_begin();
+        size_t ng = 1 + (size_t)(item % 3), total = (size_t)K + (last_is_candidate ? 0 : 1);
+        size_t done = 0; char nm[16];
+        for (size_t g = 0; g < ng; g++) {
+                size_t n = g + 1 == ng ? total - done : total / ng;
+                struct cat_command *arr = w_group(n, false);
+                for (size_t j = 0; j < n; j++, done++) {
+                        if (done < (size_t)K) snprintf(nm, sizeof nm, "+C%03zu", done); else strcpy(nm, "+ZLAST");
+                        arr[j].name = xstr(nm); set_handlers(&arr[j], 15);
+                }
+        }
+        finish_world();
+        for (int s = 0; s < 4; s++) { line_for("+C", s % 3, s); line_for("+C0", 0, s); line_for("+C00", 1, s); line_for("+C001", 2, s); line_for("+", 0, s); line_for("+Z", 0, s); }
+        snprintf(nm, sizeof nm, "+C%03d", K - 1); line_for(nm, 0, 0); line_for(nm, 1, 1);
+        if (K > 100) { line_for("+C1", 0, 0); line_for("+C10", 0, 1); line_for("+C2", 0, 2); line_for("+C25", 0, 3); }
+}
+
 /* ---- random tables ---- */
 static void random_case(void)
 {
@@ -255,7 +278,7 @@ static void random_case(void)
 const char *PROP = "C02";
 struct case_budget chk_budget(const char *tier)
 {
-        struct case_budget b = { N_LANES + 360 + N_ALPHA + N_DUPS, 0 };
+        struct case_budget b = { N_LANES + 360 + N_ALPHA + N_DUPS + N_CAND, 0 };
         b.random = strcmp(tier, "thorough") == 0 ? 1500000 : 40000;
         return b;
 }
@@ -267,7 +290,8 @@ void chk_run_case(uint64_t seed, long c, bool is_sweep)
                 if (c < N_LANES) sweep_lanes(c);
                 else if ((c -= N_LANES) < 360) sweep_orders(c);
                 else if ((c -= 360) < N_ALPHA) sweep_alphabet(c);
-                else sweep_dups(c - N_ALPHA);
+                else if ((c -= N_ALPHA) < N_DUPS) sweep_dups(c);
+                else sweep_candidates(c - N_DUPS);
         } else random_case();
 }
 int main(int argc, char **argv) { MY_PROP = "C02"; PROG_NAME = "chk_C02"; return verif_main(argc, argv); }
